@@ -49,3 +49,29 @@ package auth
 // UpdateACL reads its input structure and returns a new encoded ACL (assumed frame condition).
 //@ func UpdateACL
 //@   preserves-args
+
+// ---- C14: bucket policy evaluation ------------------------------------------------
+// specGlob is the policy language's glob: '*' matches any run of characters, '?' exactly one.
+//@ ghost func specGlob(p string, s string, i int, j int) bool = \
+//@     ite(i >= len(p), j == len(s), \
+//@       ite(p[i] == '*', specGlob(p, s, i + 1, j) || (j < len(s) && specGlob(p, s, i, j + 1)), \
+//@           j < len(s) && (p[i] == '?' || p[i] == s[j]) && specGlob(p, s, i + 1, j + 1)))
+
+// a star absorbs any run: from a match of the rest at k it follows that the star matches from j <= k
+//@ lemma starAbsorbs0(p string, s string, i int, j int, k int) {C14} \
+//@     requires 0 <= i && i < len(p) && p[i] == '*' && 0 <= j && j <= k && k <= len(s) && specGlob(p, s, i + 1, k) \
+//@     ensures specGlob(p, s, i, j) induction k - j
+// the same fact in a form whose instances the solver finds by matching
+//@ lemma starAbsorbs(p string, s string, i int, i1 int, j int, k int) {C14} \
+//@     requires i1 == i + 1 && 0 <= i && i < len(p) && p[i] == '*' && 0 <= j && j <= k && k <= len(s) && specGlob(p, s, i1, k) \
+//@     ensures specGlob(p, s, i, j) trigger specGlob(p, s, i1, k), specGlob(p, s, i, j)
+
+//@ func (Resources) Match
+//@   ensures {C14} [glob-sound] ret0 ==> specGlob(pattern, input, 0, 0)
+//@   loop 1 invariant {C14} [bounds] 0 <= pIdx && pIdx <= len(pattern) && 0 <= sIdx && sIdx <= len(input) && -1 <= starIdx && starIdx < pIdx && 0 <= matchIdx && matchIdx <= sIdx
+//@   loop 1 invariant {C14} [suffix-match-suffices] specGlob(pattern, input, pIdx, sIdx) ==> specGlob(pattern, input, 0, 0)
+//@   loop 1 invariant {C14} [star-retry-suffices] starIdx >= 0 ==> pattern[starIdx] == '*' && (forall k int :: matchIdx <= k && k <= len(input) && specGlob(pattern, input, starIdx + 1, k) ==> specGlob(pattern, input, 0, 0))
+//@   loop 1 invariant {C14} [no-star-no-retry] starIdx == -1 ==> matchIdx == 0
+//@   loop 1 decreases {C14} len(input) - matchIdx, (len(pattern) - pIdx) + (len(input) - sIdx)
+//@   loop 2 invariant {C14} [tail] 0 <= pIdx && pIdx <= len(pattern) && (specGlob(pattern, input, pIdx, len(input)) ==> specGlob(pattern, input, 0, 0))
+//@   loop 2 decreases {C14} len(pattern) - pIdx
